@@ -604,10 +604,39 @@ def w7(F, rep):
     DYN = re.compile(r"^branch\((preflate_rs::)?huffman_encoding::HuffmanWriter::start_dynamic_huffman_table\(arg<&mut preflate_rs::deflate_writer::DeflateWriter>\.bitwriter, arg<&preflate_rs::preflate_token::PreflateTokenBlock>\.huffman_encoding, .*\)\) as Continue\.0$")
     FIX = re.compile(r"^(preflate_rs::)?huffman_encoding::HuffmanWriter::start_fixed_huffman_table\(\)$")
     calls = [(bb, t) for bb, t in b.calls() if strip_generics(callee_def(t)).endswith("::encode_block_with_decoder")]
-    rep.floor("W7", "token-encoding-calls", len(calls), 2)
+    rep.floor("W7", "token-encoding-calls", len(calls), 1)
+
+    def origins(op, depth=0):
+        """Descriptors of everything the writer handed over can be: one per definition when it is chosen in a `match`."""
+        pl = op_place(op)
+        if pl is None or depth > 6:
+            return [flow.describe(b, op)]
+        ds = b.defs(pl["l"])
+        if pl["p"] == ["*"] and len(ds) == 1 and ds[0][2] == "assign" and ds[0][3]["k"] in ("ref", "rawptr"):
+            return origins({"c": ds[0][3]["place"]}, depth + 1)         # a reborrow: look at what is borrowed
+        if len(ds) <= 1 or pl["p"]:
+            d0 = ds[0] if ds else None
+            if d0 and d0[2] == "assign" and d0[3]["k"] in ("ref", "rawptr") and not pl["p"]:
+                return origins({"c": d0[3]["place"]}, depth + 1)
+            if d0 and d0[2] == "assign" and d0[3]["k"] == "use" and not pl["p"] and op_place(d0[3]["op"]) is not None and len(b.defs(op_place(d0[3]["op"])["l"])) > 1:
+                return origins(d0[3]["op"], depth + 1)
+            return [flow.describe(b, op)]
+        out = []
+        for d0 in ds:
+            if d0[2] == "assign":
+                out.append(flow.describe_rvalue(b, d0[3], names=False))
+            elif d0[2] == "call":
+                out.append("%s(%s)" % (strip_generics(callee_def(d0[3])), ", ".join(flow.describe(b, a) for a in d0[3]["args"])))
+            else:
+                out.append("?")
+        return out
+    kinds = set()
     for i, (bb, t) in enumerate(calls):
-        d = flow.describe(b, t["args"][2])
-        rep.add("W7", "codes-from-this-blocks-header#%d" % i, bool(DYN.match(d) or FIX.match(d)), b.where(bb), "encode_block_with_decoder(.., %s)" % d[:200])
+        ds = origins(t["args"][2])
+        ok = bool(ds) and all(DYN.match(d) or FIX.match(d) for d in ds)
+        kinds |= {"dyn" if DYN.match(d) else "fix" for d in ds if DYN.match(d) or FIX.match(d)}
+        rep.add("W7", "codes-from-this-blocks-header#%d" % i, ok, b.where(bb), "encode_block_with_decoder(.., %s)" % [d[:160] for d in ds])
+    rep.add("W7", "both-kinds-of-code-table-built-here", kinds == {"dyn", "fix"}, where, "writers handed to the token encoder: %s" % sorted(kinds))
     a = F.adts.get(P + "deflate_writer::DeflateWriter")
     held = [f["name"] for f in a["variants"][0]["fields"] if "Huffman" in f["ty"]] if a else ["?"]
     rep.add("W7", "writer-keeps-no-code-tables", not held, where, "DeflateWriter fields holding Huffman state across blocks: %s" % held)
